@@ -333,6 +333,20 @@ Definition identity_uses : list string :=
    "UNREGISTER: RemoveProducer(key, client.peerInfo.id)";
    "IOLoop: LookupRegistrations(client.peerInfo.id)";
    "IOLoop: RemoveProducer(r, client.peerInfo.id)"].
+(* tcp.go Handle as [exec_conn_g] transcribes it (log calls left out): a short read closes
+   and RETURNS; the magic switch has the one accepted magic; every other magic is answered
+   E_BAD_PROTOCOL, closed, and the function RETURNS - what follows the switch calls
+   prot.NewClient, with prot the nil interface after the default clause (a nil-interface
+   method call panics, and a panic in a connection goroutine kills the daemon) *)
+Definition handle_shape : list string :=
+  ["call make"; "call io.ReadFull";
+   "if err != nil {"; "call Close"; "return"; "}";
+   "call string";
+   "switch protocolMagic {";
+   "case ""  V1"":"; "set prot";
+   "default:"; "call protocol.SendResponse E_BAD_PROTOCOL"; "call Close"; "return";
+   "}";
+   "call NewClient"; "call Store"; "call IOLoop"; "if err != nil {"; "}"; "call Delete"; "call Close"].
 Definition exec_table : list (string * string * string) :=
   [("PING", "PING", "client,params");
    ("IDENTIFY", "IDENTIFY", "client,reader,params[1:]");
